@@ -4973,6 +4973,10 @@ Case_SimdLdurStur:
         if (m.has_offset() || !m.is_post_index())
           goto InvalidAddress;
 
+        // The post-index register is always a 64-bit GP register.
+        if (m.index_type() != RegType::kGp64)
+          goto InvalidAddress;
+
         rm = m.index_id();
         if (rm > 30)
           goto InvalidAddress;
